@@ -444,4 +444,54 @@ example : Equiv (roundTrip vaultTable (fun _ => [])
     [⟨"VaultKeyPrefix", "01", 1, .raw "a"⟩, ⟨"VaultKeyPrefix", "03", 3, .raw "c"⟩, ⟨"VaultIDPrefix", "", 0, .num 3⟩] :=
   roundtrip_id _ _ _ (by decide) (by decide) (by decide) (by intro e he; simp at he) (by intro p hp; simp [vaultTable] at hp)
 
+/-! ## registered store migrations (x/lend 2→3, x/rewards 2→3) -/
+
+/-- **A migration loop with a destination variable per record keeps every record.** For every list of well-formed wire records
+(`n` fields, a present field never carries the default value): decoding each into a fresh struct and re-encoding it is the
+identity — a store in the current format is a fixed point. -/
+theorem migrate_fresh_id (n : Nat) (ws : List Wire) (h : ∀ w ∈ ws, Wire.canonical n w) : migrateFresh n ws = ws := by
+  unfold migrateFresh
+  induction ws with
+  | nil => rfl
+  | cons w ws ih =>
+    have hw := h w List.mem_cons_self
+    rw [List.map_cons, encode_decodeInto_fresh w n hw.1 hw.2, ih (fun v hv => h v (List.mem_cons_of_mem _ hv))]
+
+example : migrateFresh 3 [[some 15, some 1, none], [some 16, none, some 3]] = [[some 15, some 1, none], [some 16, none, some 3]] :=
+  migrate_fresh_id 3 _ (by
+    intro w hw
+    simp only [List.mem_cons, List.mem_nil_iff, or_false] at hw
+    rcases hw with rfl | rfl <;> exact ⟨rfl, by decide⟩)
+
+/-- The loop as written (`x/lend/keeper/migrate.go:160,205`: ONE variable declared before the loop, `Unmarshal` does not reset it)
+is NOT the identity: a field omitted on the wire (default value) inherits the value of the previous record. Witness = lend pairs
+(id, inter-pool flag): pair 14 is an inter-pool pair, pair 15 is not — after the migration pair 15 is. Replayed on the real code:
+`migration_keeps:lend.LendPairKeyPrefix`, `migration_keeps:lend.AssetRatesParamsKeyPrefix` (first case of TestC20Migrations). -/
+theorem migrate_shared_counterexample :
+    migrateShared [0, 0] [[some 14, some 1], [some 15, none]] = [[some 14, some 1], [some 15, some 1]] ∧
+    migrateFresh 2 [[some 14, some 1], [some 15, none]] = [[some 14, some 1], [some 15, none]] ∧
+    Wire.canonical 2 [some 14, some 1] ∧ Wire.canonical 2 [some 15, none] := by
+  refine ⟨rfl, rfl, ⟨rfl, by decide⟩, ⟨rfl, by decide⟩⟩
+
+/-- … the strongest true statement about the loop as written: it keeps the records as long as every field of every record is
+present on the wire (no field has its default value) -/
+theorem migrate_shared_id_partial (n : Nat) (ws : List Wire) (acc : List Nat) (hacc : acc.length = n)
+    (h : ∀ w ∈ ws, Wire.canonical n w ∧ ∀ x ∈ w, x ≠ none) : migrateShared acc ws = ws := by
+  induction ws generalizing acc with
+  | nil => rfl
+  | cons w ws ih =>
+    obtain ⟨⟨hlen, hcan⟩, hfull⟩ := h w List.mem_cons_self
+    have hd : decodeInto acc w = decodeInto (List.replicate n 0) w := by
+      rw [decodeInto_full w acc (by rw [hacc, hlen]) hfull, decodeInto_full w _ (by simp [hlen]) hfull]
+    have hlen' : (decodeInto acc w).length = n := by
+      rw [decodeInto_full w acc (by rw [hacc, hlen]) hfull]; simp [hlen]
+    unfold migrateShared
+    rw [ih (decodeInto acc w) hlen' (fun v hv => h v (List.mem_cons_of_mem _ hv)), hd, encode_decodeInto_fresh w n hlen hcan]
+
+example : migrateShared [0, 0] [[some 14, some 1], [some 15, some 2]] = [[some 14, some 1], [some 15, some 2]] :=
+  migrate_shared_id_partial 2 _ _ rfl (by
+    intro w hw
+    simp only [List.mem_cons, List.mem_nil_iff, or_false] at hw
+    rcases hw with rfl | rfl <;> exact ⟨⟨rfl, by decide⟩, by decide⟩)
+
 end Comdex.C20
